@@ -172,3 +172,505 @@ def r_digits(ctx, rep):
         rep.violation("R-DIGITS", key, loc(fn.raw), "the column value defined at %s does not reach a pushed letter: %s (%d such path(s)); columns differing only in that digit render identically" % (what, why, len(bad)))
     else:
         rep.holds("R-DIGITS", key, loc(fn.raw), "every definition of the running column value flows into String::push on every path")
+
+
+# ----------------------------------------------------------------------------------------------
+# R-SIB-PTG: the two token decoders agree on the operand-stack / output-buffer discipline of every token class
+
+_APPEND = ("push", "push_str", "write_fmt", "extend")
+SIB_PTG_EXCEPTIONS = {
+    "0x18": "PtgElf / PtgList: MS-XLSB renders a table reference placeholder and pushes an operand, MS-XLS skips the extended token",
+    "0x19": "PtgAttr: the xls decoder also renders PtgAttrSpace, the xlsb decoder skips it (sub-token tables are compared by R-TAB-PTG)",
+    "0x20": "PtgArray: only the xls decoder writes the {PtgArray} placeholder; both push one operand",
+}
+
+
+def _ptg_arms(F, name):
+    from .r_tables import pat_keys
+    fn = F.fn(name)
+    if fn is None:
+        return None, {}
+    ms = sorted(walk_k(fn.body, "Match"), key=lambda m: -len(m["arms"]))
+    out = {}
+    for a in ms[0]["arms"] if ms else []:
+        ks, _ = pat_keys(a["pat"])
+        ints = sorted(k[1] for k in ks if k[0] == "int")
+        if ints:
+            out[tuple(ints)] = a
+        else:
+            rng = sorted((k[1], k[2]) for k in ks if k[0] == "range" and isinstance(k[1], int))
+            if rng:
+                out[(rng[0][0],)] = a
+    return fn, out
+
+
+def _role(e):
+    fc = field_chain(e)
+    if not fc or fc[1]:
+        return None
+    t = (peel(e).get("ty") or "").replace("&mut ", "").replace("&", "")
+    if t == "alloc::vec::Vec<usize>":
+        return "stack"
+    if t == "alloc::string::String":
+        return "out:" + fc[0]
+    return None
+
+
+def stack_events(node, out_name="formula"):
+    """source-order sequence of operations on the operand stack (Vec<usize>) and on the output String"""
+    ev = []
+
+    def rec(n):
+        if isinstance(n, list):
+            for x in n:
+                rec(x)
+            return
+        if not isinstance(n, dict):
+            return
+        if n.get("k") == "MethodCall":
+            rec(n["recv"])
+            rec(n["args"])
+            r = _role(n["recv"])
+            if r == "stack":
+                ev.append("stack." + n["name"])
+            elif r == "out:" + out_name:
+                nm = "append" if n["name"] in _APPEND else n["name"]
+                if not (nm == "append" and ev and ev[-1] == "out.append"):
+                    ev.append("out." + nm)
+            return
+        for key, v in n.items():
+            if key in ("span", "res", "callee"):
+                continue
+            if isinstance(v, (dict, list)):
+                rec(v)
+    rec(node)
+    return ev
+
+
+def r_sib_ptg(ctx, rep):
+    """xls::parse_formula and xlsb::parse_formula are two copies of one algorithm (an operand stack of offsets into
+    the output string).  For every token class both decode, the order of stack operations and output-buffer
+    operations (len / split_off / insert / append) must agree: the payload widths differ between the formats,
+    the evaluation-order bookkeeping does not."""
+    F = ctx.facts("default")
+    fa, A = _ptg_arms(F, "xls::parse_formula")
+    fb, B = _ptg_arms(F, "xlsb::parse_formula")
+    if fa is None or fb is None:
+        rep.anchor_missing("R-SIB-PTG", "xls::parse_formula / xlsb::parse_formula")
+        return
+    for ks in sorted(A):
+        if ks not in B:
+            continue
+        tag = "0x%x" % ks[0]
+        key = "parse_formula|R-SIB-PTG|%s" % tag
+        ea, eb = stack_events(A[ks]["body"]), stack_events(B[ks]["body"])
+        if tag in SIB_PTG_EXCEPTIONS:
+            rep.holds("R-SIB-PTG", key, loc(A[ks]), "documented difference: " + SIB_PTG_EXCEPTIONS[tag], nontrivial=False)
+        elif ea == eb:
+            rep.holds("R-SIB-PTG", key, loc(A[ks]), "both decoders: %s" % (" ; ".join(ea) or "no stack/output effect"), nontrivial=bool(ea))
+        else:
+            rep.violation("R-SIB-PTG", key, "%s / %s" % (loc(A[ks]), loc(B[ks])),
+                          "the xls and xlsb decoders disagree on the stack/output discipline of token class %s:\n  xls : %s\n  xlsb: %s\nthe operand offsets recorded on the stack decide where operators, parentheses and function names are inserted" % (tag, " ; ".join(ea), " ; ".join(eb)))
+    rep.floor("R-SIB-PTG", 20, "token classes decoded by both parse_formula functions")
+
+
+# ----------------------------------------------------------------------------------------------
+# R-CELLPOS: an explicit cell reference decides the reported position (xlsx walkers)
+
+def _lets(fn):
+    out = {}
+    for n in walk_k(fn.body, "Let"):
+        if n.get("init") is not None:
+            out[id(n)] = n
+    return out
+
+
+def _binding_source(fn, lid):
+    """(let node, index of the binding inside a tuple pattern or None)"""
+    for n in walk_k(fn.body, "Let"):
+        if n.get("init") is None:
+            continue
+        p = n["pat"]
+        if p.get("k") == "Tuple":
+            for i, sp in enumerate(p.get("pats", [])):
+                if sp.get("k") == "Binding" and sp.get("lid") == lid:
+                    return n, i
+        elif p.get("k") == "Binding" and p.get("lid") == lid:
+            return n, None
+    return None, None
+
+
+def _calls_fn(e, name):
+    return any(callee(c) == name for c in walk_k(e, "Call"))
+
+
+def r_cellpos(ctx, rep):
+    """C01/C14: when a <c> element carries an `r` attribute, the position reported for the cell is exactly the
+    (row, column) pair that xlsx::get_row_column decodes from it -- not the running cursor.  Checked in both
+    walkers: in the `Some(r)` branch of the position computation the resulting tuple is (first, second) component
+    of the get_row_column result; in the other branch it is the cursor (row_index, col_index)."""
+    F = ctx.facts("default")
+    for name in ("xlsx::cells_reader::XlsxCellReader::next_cell", "xlsx::cells_reader::XlsxCellReader::next_formula"):
+        fn = F.fn(name)
+        short = name.rsplit("::", 1)[-1]
+        key = "XlsxCellReader::%s|R-CELLPOS" % short
+        if fn is None:
+            rep.anchor_missing("R-CELLPOS", name)
+            continue
+        found = False
+        for n in walk_k(fn.body, "Let"):
+            init = unwrap(n.get("init")) if n.get("init") is not None else None
+            if not init or init.get("k") != "If" or unwrap(init["cond"]).get("k") != "LetExpr":
+                continue
+            if not _calls_fn(init["then"], "xlsx::get_row_column"):
+                continue
+            found = True
+            then = unwrap(init["then"])
+            tail = then["block"].get("expr") if then.get("k") == "BlockExpr" else then
+            tail = unwrap(tail) if tail is not None else None
+            ok, why = False, "unrecognised form of the position expression"
+            if tail is not None and tail.get("k") == "Tup" and len(tail["es"]) == 2:
+                comps = []
+                for i, c in enumerate(tail["es"]):
+                    pl = path_local(c)
+                    if not pl:
+                        comps.append("component %d is not a local (%s)" % (i, unwrap(c).get("k")))
+                        continue
+                    let, idx = _binding_source(fn, pl[1])
+                    if let is None or not _calls_fn(let["init"], "xlsx::get_row_column"):
+                        comps.append("component %d (`%s`) does not come from get_row_column" % (i, pl[0]))
+                    elif idx != i:
+                        comps.append("component %d (`%s`) is component %s of the get_row_column result" % (i, pl[0], idx))
+                ok = not comps
+                why = "; ".join(comps)
+            elif tail is not None and path_local(tail):
+                let, idx = _binding_source(fn, path_local(tail)[1])
+                ok = let is not None and idx is None and _calls_fn(let["init"], "xlsx::get_row_column")
+            elif tail is not None and _calls_fn(tail, "xlsx::get_row_column") and tail.get("k") in ("Match", "Call"):
+                ok = True
+            els = unwrap(init["els"]) if init.get("els") is not None else None
+            etail = unwrap(els["block"].get("expr")) if els and els.get("k") == "BlockExpr" and els["block"].get("expr") is not None else els
+            eok = False
+            if etail is not None and etail.get("k") == "Tup" and len(etail["es"]) == 2:
+                fcs = [field_chain(c) for c in etail["es"]]
+                eok = fcs == [("self", ["row_index"]), ("self", ["col_index"])]
+            if ok and eok:
+                rep.holds("R-CELLPOS", key, loc(n), "explicit reference: (row, col) of get_row_column in order; implicit: (row_index, col_index)")
+            elif not ok:
+                rep.violation("R-CELLPOS", key, loc(n), "a cell with an explicit `r` attribute is not reported at the position the attribute encodes: %s" % why)
+            else:
+                rep.violation("R-CELLPOS", key, loc(n), "a cell without an `r` attribute is not reported at the running cursor (self.row_index, self.col_index)")
+        if not found:
+            rep.anchor_missing("R-CELLPOS", "position computation (if let Some(r) = attribute { get_row_column(r) .. }) in %s" % name)
+
+
+# ----------------------------------------------------------------------------------------------
+# R-IOAMT: the byte count returned by Read::read / Write::write is used
+
+_IO_AMOUNT = ("std::io::Read::read", "std::io::Write::write", "std::io::Read::read_vectored", "std::io::Write::write_vectored")
+
+
+def r_ioamt(ctx, rep):
+    """C06 (termination) / every reader: `Read::read` may return Ok(0) at end of input or a short count; a call site
+    that throws the count away (`r.read(&mut b)?;`) treats end of input as success -- the record loops of the xlsb
+    reader end only through the UnexpectedEof error of read_exact, so they would spin forever on a truncated part.
+    Every call of an amount-returning io method must use the amount (bind it, compare it, return it)."""
+    from .kit import callee_decl
+    n_io = 0
+    for cfg in ctx.configs():
+        F = ctx.facts(cfg)
+        for fn in F.user_fns():
+            cnt = 0
+            for n, anc in walk_anc(fn.body):
+                if n.get("k") not in ("MethodCall", "Call"):
+                    continue
+                d = callee_decl(n) or ""
+                if not d.startswith("std::io::"):
+                    continue
+                n_io += 1
+                if d not in _IO_AMOUNT:
+                    continue
+                cnt += 1
+                key = "%s|R-IOAMT|%s#%d" % (fn.name, d.rsplit("::", 1)[-1], cnt)
+                # climb through `?`, map_err, unwrap, expect
+                i = len(anc) - 1
+                cur = n
+                while i >= 0:
+                    a = anc[i]
+                    k = a.get("k")
+                    if k == "Match" and a.get("src") == "TryDesugar" or k in ("DropTemps", "Use") or \
+                       (k == "Call" and (callee(a) or "").endswith("Try::branch")) or \
+                       (k == "MethodCall" and a.get("name") in ("map_err", "unwrap", "expect", "unwrap_or_default") and unwrap(a["recv"]) is cur or k == "MethodCall" and a.get("name") in ("map_err", "unwrap", "expect") and any(x is cur for x in walk(a["recv"]))):
+                        cur = a
+                        i -= 1
+                        continue
+                    break
+                parent = anc[i] if i >= 0 else None
+                discarded = parent is not None and (parent.get("k") == "Semi" or (parent.get("k") == "Let" and (parent.get("pat") or {}).get("k") == "Wild"))
+                if discarded:
+                    rep.violation("R-IOAMT", key, loc(n), "the number of bytes returned by %s is discarded: Ok(0) at end of input (or a short read) is taken for success, so a loop that relies on an UnexpectedEof error to stop never stops on a truncated stream" % d)
+                else:
+                    rep.holds("R-IOAMT", key, loc(n), "the returned byte count is used (%s)" % (parent.get("k") if parent else "value of the function"))
+    if n_io < 10:
+        rep.violation("R-IOAMT", "R-IOAMT|floor", "-", "only %d std::io trait call(s) were resolved in the crate (10 confirmed by hand): the matcher no longer sees io calls and would pass vacuously" % n_io)
+    rep.floor("R-IOAMT", 1, "cfb::Sectors::get reads sectors with Read::read and uses the count")
+
+
+# ----------------------------------------------------------------------------------------------
+# R-DBCS-PROGRESS: the character loop of xls::read_dbcs advances to the next CONTINUE fragment (or fails) whenever
+# characters are still owed
+
+def _tv_and(a, b):
+    if a is False or b is False:
+        return False
+    if a is True and b is True:
+        return True
+    return None
+
+
+def _tv_or(a, b):
+    if a is True or b is True:
+        return True
+    if a is False and b is False:
+        return False
+    return None
+
+
+def _implied_by_positive(e, lid):
+    """three-valued value of boolean expression `e` under the assumption  <local lid> > 0 ; other atoms unknown"""
+    e = unwrap(e)
+    k = e.get("k")
+    if k == "Binary":
+        op = e.get("op")
+        if op == "&&":
+            return _tv_and(_implied_by_positive(e["l"], lid), _implied_by_positive(e["r"], lid))
+        if op == "||":
+            return _tv_or(_implied_by_positive(e["l"], lid), _implied_by_positive(e["r"], lid))
+        l, r = unwrap(e["l"]), unwrap(e["r"])
+        pl, pr = path_local(l), path_local(r)
+        vl, vr = lit_value(l), lit_value(r)
+        if pl and pl[1] == lid and isinstance(vr, int):
+            return {">": vr <= 0, ">=": vr <= 1, "!=": vr <= 0, "==": False if vr <= 0 else None, "<": False if vr <= 1 else None, "<=": False if vr <= 0 else None}.get(op)
+        if pr and pr[1] == lid and isinstance(vl, int):
+            return {"<": vl <= 0, "<=": vl <= 1, "!=": vl <= 0, "==": False if vl <= 0 else None}.get(op)
+        return None
+    if k == "Unary" and e.get("op") == "!":
+        v = _implied_by_positive(e["e"], lid)
+        return None if v is None else (not v)
+    if k == "Lit" and isinstance(lit_value(e), bool):
+        return lit_value(e)
+    return None
+
+
+def r_dbcs_progress(ctx, rep):
+    """C06 (termination) and C12: the loop `while len > 0` of xls::read_dbcs decodes as many characters as the
+    current fragment holds -- possibly none (a dangling half code unit, an exhausted fragment).  It terminates
+    because every iteration that still owes characters moves to the next CONTINUE fragment or returns EoStream.
+    Decided structurally: the guard of the continue_record() step is implied by `len > 0`, lies on every path of
+    the loop body, and the branch without a further fragment leaves the function."""
+    from .kit import always_leaves
+    F = ctx.facts("default")
+    fn = F.fn("xls::read_dbcs")
+    key = "xls::read_dbcs|R-DBCS-PROGRESS"
+    if fn is None:
+        rep.anchor_missing("R-DBCS-PROGRESS", "xls::read_dbcs")
+        return
+    done = False
+    for lp, anc in walk_anc(fn.body):
+        if lp.get("k") != "Loop" or lp.get("src") != "while":
+            continue
+        top = unwrap(lp["body"].get("expr")) if lp["body"].get("expr") is not None else None
+        if not top or top.get("k") != "If":
+            continue
+        cond = unwrap(top["cond"])
+        lids = [path_local(x)[1] for x in walk_k(cond, "Path") if path_local(x)]
+        if len(lids) != 1:
+            continue
+        lid = lids[0]
+        if _implied_by_positive(cond, lid) is not True:
+            continue
+        body = top["then"]
+        steps = [(n, a) for n, a in walk_anc(body) if n.get("k") == "MethodCall" and n.get("name") == "continue_record"]
+        if not steps:
+            continue
+        done = True
+        call, canc = steps[0]
+        conds = [a for a in canc if a.get("k") in ("If", "Match") and a.get("src") != "TryDesugar"]
+        # innermost conditional is `if r.continue_record() {..} else {return Err}`, the one around it is the guard
+        inner = conds[-1] if conds else None
+        guard = conds[-2] if len(conds) >= 2 else None
+        problems = []
+        if inner is None or inner.get("k") != "If" or not any(x is call for x in walk(inner["cond"])):
+            problems.append("continue_record() is not the condition of an if/else")
+        elif inner.get("els") is None or not always_leaves(inner["els"], set()):
+            problems.append("the branch taken when there is no further CONTINUE fragment does not leave the function")
+        if guard is None:
+            pass    # unconditional step: every iteration advances
+        else:
+            if len(conds) > 2:
+                problems.append("the continue_record() step is nested in %d conditionals" % (len(conds) - 1))
+            if guard.get("k") != "If":
+                problems.append("the guard of the step is not an `if`")
+            else:
+                in_then = any(x is inner for x in walk(guard["then"]))
+                v = _implied_by_positive(guard["cond"], lid)
+                if not in_then or v is not True:
+                    problems.append("the guard of the continue_record() step is not implied by the loop condition (it has a conjunct beyond the remaining-character count): an iteration that decoded nothing and still owes characters repeats with identical state")
+        if problems:
+            rep.violation("R-DBCS-PROGRESS", key, loc(guard or call), "; ".join(problems))
+        else:
+            rep.holds("R-DBCS-PROGRESS", key, loc(call), "every iteration with characters still owed moves to the next CONTINUE fragment or returns Err")
+    if not done:
+        rep.anchor_missing("R-DBCS-PROGRESS", "`while len > 0` loop with a continue_record() step in xls::read_dbcs")
+
+
+# ----------------------------------------------------------------------------------------------
+# R-DBCS-ENC, R-INTCAST, R-CFBCLONE, R-CFBTAB
+
+def r_dbcs_enc(ctx, rep):
+    """C12: the three storage forms of BIFF8 characters (code page bytes, 8-bit compressed, 16-bit) must decode to
+    the same text.  XlsEncoding::decode_to achieves this by widening compressed bytes to UTF-16 code units and
+    sending everything through the one decoder chosen for the workbook.  Decided: every encoding_rs decode call in
+    decode_to has `self.encoding` (or the UTF_16LE static) as receiver, and no arm returns before it."""
+    F = ctx.facts("default")
+    fn = F.fn("cfb::XlsEncoding::decode_to")
+    key = "cfb::XlsEncoding::decode_to|R-DBCS-ENC"
+    if fn is None:
+        rep.anchor_missing("R-DBCS-ENC", "cfb::XlsEncoding::decode_to")
+        return
+    calls = [n for n in walk_k(fn.body, "MethodCall") if (callee(n) or "").startswith("encoding_rs::Encoding::decode")]
+    if not calls:
+        rep.anchor_missing("R-DBCS-ENC", "a call of encoding_rs::Encoding::decode* in decode_to")
+        return
+    bad = []
+    for c in calls:
+        fc = field_chain(c["recv"])
+        pd = path_def(peel(c["recv"]))
+        if fc == ("self", ["encoding"]) or (pd or "").endswith("UTF_16LE"):
+            continue
+        bad.append((c, pd or "?"))
+    rets = [r for r in walk_k(fn.body, "Ret")]
+    if bad:
+        rep.violation("R-DBCS-ENC", key, loc(bad[0][0]), "decode_to decodes one storage form with its own decoder (%s) instead of the workbook's: the same character reads differently depending on whether the writer stored it compressed or as 16 bits (e.g. U+0085 vs 0x85 in windows-1252)" % bad[0][1])
+    elif rets:
+        rep.violation("R-DBCS-ENC", key, loc(rets[0]), "an arm of decode_to returns before the common decoder call")
+    else:
+        rep.holds("R-DBCS-ENC", key, loc(calls[0]), "%d decode call(s), all on self.encoding / UTF_16LE, reached by every arm" % len(calls))
+
+
+_INTS = ("u8", "u16", "u32", "u64", "usize", "i8", "i16", "i32", "i64", "isize", "u128", "i128")
+
+
+def r_intcast(ctx, rep):
+    """C09 (numeric casts): an integer cell converts to an integer field by one `as` cast.  A chain
+    int -> f32/f64 -> int is never equivalent (it rounds beyond 2^53 and saturates instead of wrapping), so no such
+    chain may appear in the deserializer."""
+    F = ctx.facts("default")
+    n = 0
+    cnt = defaultdict(int)
+    for fn in F.fns_in("src/de.rs"):
+        for c in walk_k(fn.body, "Cast"):
+            if c.get("ty") not in _INTS:
+                continue
+            n += 1
+            inner = unwrap(c["e"])
+            if inner.get("k") == "Cast" and inner.get("ty") in ("f32", "f64") and (unwrap(inner["e"]).get("ty") or "").lstrip("&") in _INTS:
+                cnt[fn.name] += 1
+                rep.violation("R-INTCAST", "%s|R-INTCAST|%s#%d" % (fn.name, c.get("ty"), cnt[fn.name]), loc(c),
+                              "an integer value is converted to %s through %s: values beyond 2^53 lose their low bits and out-of-range values saturate instead of following the documented `as` cast" % (c.get("ty"), inner.get("ty")))
+            else:
+                k = "%s|R-INTCAST|%s" % (fn.name, c.get("ty"))
+                cnt[k] += 1
+                rep.holds("R-INTCAST", k + ("" if cnt[k] == 1 else "#%d" % cnt[k]), loc(c), "direct cast", nontrivial=False)
+    rep.floor("R-INTCAST", 16, "integer casts in the deserialize_<int> methods of src/de.rs")
+
+
+def r_cfbclone(ctx, rep):
+    """C13: a Cfb caches the sectors read so far from a forward-only reader; a clone made after construction shares
+    the reader but not the cache, so using the original after reading through the clone returns bytes from the
+    wrong file offset.  Decided: no `Clone::clone` on a cfb::Cfb whose original is used afterwards."""
+    n_clone = 0
+    for cfg in ctx.configs():
+        F = ctx.facts(cfg)
+        for fn in F.user_fns():
+            calls = []
+            for n in walk_k(fn.body, "MethodCall"):
+                if n.get("name") != "clone":
+                    continue
+                n_clone += 1
+                t = (peel(n["recv"]).get("ty") or "").replace("&mut ", "").replace("&", "")
+                if t == "cfb::Cfb":
+                    calls.append(n)
+            for i, c in enumerate(calls):
+                key = "%s|R-CFBCLONE|#%d" % (fn.name, i + 1)
+                pl = path_local(peel(c["recv"]))
+                later = []
+                if pl:
+                    cl = (c["span"]["l"], c["span"]["c"])
+                    later = [p for p in walk_k(fn.body, "Path") if path_local(p) and path_local(p)[1] == pl[1] and (p["span"]["l"], p["span"]["c"]) > (c["span"]["el"], c["span"]["ec"])]
+                if later or not pl:
+                    rep.violation("R-CFBCLONE", key, loc(c), "a cfb::Cfb is cloned and the original is used again at %s: the two copies share one forward-only reader but not the sector cache, so streams read afterwards come from the wrong offset" % (loc(later[0]) if later else "?"))
+                else:
+                    rep.holds("R-CFBCLONE", key, loc(c), "the original is not used after the clone")
+    if n_clone < 10:
+        rep.violation("R-CFBCLONE", "R-CFBCLONE|floor", "-", "only %d clone() calls resolved in the crate: the matcher would pass vacuously" % n_clone)
+    else:
+        rep.holds("R-CFBCLONE", "R-CFBCLONE|scan", "-", "%d clone() calls in the crate, none on a cfb::Cfb that is used afterwards" % n_clone, nontrivial=False)
+
+
+_VEC_BUILD_OK = ("with_capacity", "new", "extend", "reserve", "collect", "len", "is_empty", "iter", "as_slice", "capacity", "get", "into_iter")
+
+
+def r_cfbtab(ctx, rep):
+    """C13: the FAT and mini-FAT tables are the concatenation of the decoded table sectors; every sector id of the
+    container must keep its entry.  Decided: in Cfb::new the Vec<u32> tables other than the DIFAT work list are only
+    built by appending (with_capacity / extend / collect) -- never truncated, popped, resized or reordered."""
+    F = ctx.facts("default")
+    fn = F.fn("cfb::Cfb::new")
+    if fn is None:
+        rep.anchor_missing("R-CFBTAB", "cfb::Cfb::new")
+        return
+    seen = set()
+    for n in walk_k(fn.body, "MethodCall"):
+        r = peel(n["recv"])
+        t = (r.get("ty") or "").replace("&mut ", "").replace("&", "")
+        pl = path_local(r)
+        if t != "alloc::vec::Vec<u32>" or not pl or pl[0] == "difat":
+            continue
+        key = "cfb::Cfb::new|R-CFBTAB|%s.%s" % (pl[0], n["name"])
+        if key in seen:
+            continue
+        seen.add(key)
+        if n["name"] in _VEC_BUILD_OK:
+            rep.holds("R-CFBTAB", key, loc(n), "append-only construction")
+        else:
+            rep.violation("R-CFBTAB", key, loc(n), "the sector table `%s` is modified by `%s` after being decoded: entries of valid sectors can be lost, so a stream whose chain passes through them is cut short or the lookup panics" % (pl[0], n["name"]))
+    # the tables must exist
+    names = {p["name"] for p in walk_k(fn.body, "Binding") if (p.get("ty") or "") == "alloc::vec::Vec<u32>"}
+    if not ({"fats"} & names):
+        rep.anchor_missing("R-CFBTAB", "local `fats: Vec<u32>` in cfb::Cfb::new")
+    rep.floor("R-CFBTAB", 1, "fats.extend(..)")
+
+
+def r_numparse(ctx, rep):
+    """C09 (numeric strings): a text cell bound to a numeric field is parsed as that field's type, so "300" for a u8
+    or "1.5" for an i32 is an error rather than a silently saturated / truncated number.  Decided: in every
+    deserialize_<num> method of DataDeserializer the str::parse call yields the method's own type."""
+    F = ctx.facts("default")
+    for fn in F.fns_in("src/de.rs"):
+        m = re.search(r"::deserialize_([iuf](?:8|16|32|64))$", fn.name)
+        if not m or "DataDeserializer" not in fn.name:
+            continue
+        want = m.group(1)
+        key = "DataDeserializer::deserialize_%s|R-NUMPARSE" % want
+        ps = [n for n in walk_k(fn.body, "MethodCall") if n.get("name") == "parse" and (callee(n) or "").startswith("core::str::")]
+        if not ps:
+            rep.violation("R-NUMPARSE", key, loc(fn.raw), "no str::parse call: numeric strings are not converted for %s fields" % want)
+            continue
+        got = re.match(r"core::result::Result<([^,]+),", ps[0].get("ty") or "")
+        got = got.group(1) if got else "?"
+        if got == want:
+            rep.holds("R-NUMPARSE", key, loc(ps[0]), "text is parsed as %s" % want)
+        else:
+            rep.violation("R-NUMPARSE", key, loc(ps[0]), "text bound to a %s field is parsed as %s and then cast: out-of-range and fractional strings are silently saturated / truncated instead of being rejected" % (want, got))
+    rep.floor("R-NUMPARSE", 10, "deserialize_{i,u}{8,16,32,64} and deserialize_f{32,64} of DataDeserializer")
